@@ -102,7 +102,12 @@ TInplace == /\ Is("inplace") /\ UNCHANGED <<vars, kind, fs, sizes, xd>>
             /\ LET e == Ev
                    invalidIds == {e.ids[c] : c \in {d \in 1..Len(e.ids) : \A i \in 1..Len(e.valid) : e.valid[i] # d}}
                    refetched == {e.refetched[i] : i \in 1..Len(e.refetched)}
+                   \* with one worker the positions are processed in order and every processed position feeds the self seed: a chunk
+                   \* is only fetched at the FIRST position that holds it, and only if that range was not valid after the death
+                   firstInvalidIds == {e.ids[c] : c \in {d \in 1..Len(e.ids) : (\A i \in 1..Len(e.valid) : e.valid[i] # d)
+                                                                              /\ (\A b \in 1..(d - 1) : e.ids[b] # e.ids[d])}}
                IN bad' = bad \cup Flag(refetched \subseteq invalidIds, "the re-run fetched a chunk whose range was already written correctly before the death")
+                             \cup Flag(e.n = "1" => refetched \subseteq firstInvalidIds, "the re-run (one worker) fetched a chunk again that an earlier position of the file already holds")
                              \cup Flag(e.rerun_ok /\ e.final_ok, "the re-run of the in-place extract did not complete with the correct output")
 
 TNext == TReset \/ TStutter \/ TTmp \/ TWritten \/ TClosed \/ TExit \/ TRet \/ TPrune \/ TEnd \/ THang \/ TSys \/ TXsys \/ TKill \/ TXkill \/ TInplace
